@@ -131,6 +131,11 @@ def specs(deep: bool) -> list[dict]:
              applied_filters=[F("cut_percentile_shortest", percentile=20.0), F("collect_generation_meta")]),
         dict(name="i", grid_n=2, n_mazes=5, seed=7, maze_ctor="gen_dfs_percolation", maze_ctor_kwargs=dict(p=0.9)),
         dict(name="j", grid_n=3, n_mazes=4, maze_ctor="gen_dfs", maze_ctor_kwargs=dict(start_coord=[1, 1]), applied_filters=[F("collect_generation_meta")]),
+        # tiny constrained mazes: equal connection structures recur across seeds (anything memoised per maze value would leak between datasets)
+        dict(name="n", grid_n=3, n_mazes=6, seed=11, maze_ctor_kwargs=dict(accessible_cells=3)),
+        dict(name="o", grid_n=3, n_mazes=6, seed=3, maze_ctor_kwargs=dict(max_tree_depth=2)),
+        # a fractional argument (resolved against the grid size inside the generator; the request must keep the fraction)
+        dict(name="p", grid_n=4, n_mazes=4, seed=5, maze_ctor_kwargs=dict(accessible_cells=0.5)),
     ]
     if deep:
         S += [dict(name="k", grid_n=6, n_mazes=8, seed=99, maze_ctor="gen_wilson", applied_filters=[F("path_length", min_length=4), F("truncate_count", max_count=5)]),
@@ -162,9 +167,15 @@ def perturb(hr: _pyrandom.Random, pool: list[dict]) -> list[str]:
         elif a == "seed_torch":
             torch.manual_seed(hr.randrange(10**6))
         elif a == "generate":
-            MazeDataset.generate(make_cfg(hr.choice(pool)))
+            s = dict(hr.choice(pool))
+            if hr.random() < 0.6: s["seed"] = hr.randrange(10**6)     # the same kind of dataset under another seed
+            try: MazeDataset.generate(make_cfg(s))
+            except ValueError: pass    # a history step may hit the documented "no valid start or end positions" of sparse percolation mazes
         elif a == "from_config":
-            MazeDataset.from_config(make_cfg(hr.choice(pool)), load_local=False, save_local=False, do_download=False)
+            s = dict(hr.choice(pool))
+            if hr.random() < 0.6: s["seed"] = hr.randrange(10**6)
+            try: MazeDataset.from_config(make_cfg(s), load_local=False, save_local=False, do_download=False)
+            except ValueError: pass
         elif a == "construct":
             s = dict(hr.choice(pool)); s["seed"] = hr.randrange(10**6); make_cfg(s)
         elif a == "np_state":
